@@ -172,3 +172,33 @@ def c06_legal(k: int, j: int) -> bool:
     with NoTracing():
         txt, variables, op = legal_doc(kind, k, j)
     return verdict(run_doc(txt, variables, op, compare=(kind != "meta")))
+
+
+# ---- sequences: a valid document stays valid whatever was validated before it (and whatever its sibling operations declare) ----
+SEQ = [
+    ("query B0($id: String) { arg(s: $id) }", {"id": "x"}, None),
+    ("query A($id: Int) { ...F } fragment F on Query { arg(i: $id) }", {"id": 1}, None),
+    ("query B2($id: String) { arg(s: $id) }", {"id": "y"}, None),
+    ("query A($id: Int) { ...F } query B3($id: String) { arg(s: $id) } fragment F on Query { arg(i: $id) }", {"id": "z"}, "B3"),
+    ("query A($id: Int) { ...F } query B3($id: String) { arg(s: $id) } fragment F on Query { arg(i: $id) }", {"id": 2}, "A"),
+    ("query C($id: [Int]) { q { ...G } } fragment G on Query { arg(li: $id) }", {"id": [1]}, None),
+    ("query D($id: Inp) { ...H } fragment H on Query { q { arg(o: $id) } }", {"id": {"x": 1}}, None),
+    ("{ a ...K ...K } fragment K on Query { b }", {}, None),
+]
+
+
+@obligation(tier="quick", timeout=240, shards=[{"first": i} for i in range(len(SEQ))],
+            samples=[{"j": 1, "k": 2}, {"j": 3, "k": 0}],
+            selectors=["j, k: second and third request of the sequence (8 valid documents reusing one variable name with different types, through fragments)", "shard: first request"],
+            bounds="sequences of 3 requests over 8 valid documents on one engine",
+            note="valid documents are accepted whatever was validated before them on the same engine / in the same process, and whatever the other operations of the document declare")
+def c06_history(j: int, k: int) -> bool:
+    """
+    post: _
+    """
+    idx = [shard()["first"], pick(j, len(SEQ)), pick(k, len(SEQ))]
+    for i in idx:
+        txt, variables, op = SEQ[i]
+        if not run_doc(txt, variables, op):
+            return verdict(False)
+    return verdict(True)
